@@ -33,7 +33,9 @@ the same end-to-end check.
 `SEARCH_ZERO_WIDTH_OPERANDS`: the end-to-end search includes operands with zero-width chunks (the correspondence part
 always does).  Slicing such an operand to whole blocks does not keep exactly those blocks; `_accept_slice_coarse` declines
 there since commit 978baf4 (`0 in arg.chunks[dim_idx]`, modelled in `opAxisSlice`); the minimal inputs of that repaired
-defect are regression probes (`KNOWN_PROBES`, signature `crs:zero-width-operand-chunk`) run on every run.
+defect are regression probes (`KNOWN_PROBES`, signature `crs:zero-width-operand-chunk`) run on every run, as is the
+input of the repaired unaligned-operands defect (commit c36af38: sliced operand axes of one label must have equal chunks,
+`label_chunks.setdefault(...) != ...`, modelled by `opAxisSliceS` and the running `LabelChunks`).
 """
 from __future__ import annotations
 
@@ -237,6 +239,9 @@ def gen_node(rng, zeros):
                     chunks[a] = [1]  # a broadcast axis
                 elif t > 0 and rng.random() < 0.08:
                     chunks[a] = rand_chunks(rng, dims[l], use_zeros)  # other block boundaries (paired by position)
+                elif t > 0 and rng.random() < 0.06:
+                    chunks[a] = list(lab_chunks[l])  # as many blocks, other boundaries
+                    rng.shuffle(chunks[a])
             case["ops"].append({"ind": ind, "chunks": chunks, "coef": rng.choice([1, 2, 3, -1]), "seed": rng.randrange(1000)})
         for l in out:  # `chunks=` adjusts every label
             case["adjust"][l] = gen_adjust(rng, None if rng.random() < 0.6 else "id", rng.choice(["tuple", "tuple", "int"]))
@@ -273,6 +278,9 @@ def gen_node(rng, zeros):
                 chunks[a] = [1]
             elif t > 0 and rng.random() < 0.1:
                 chunks[a] = rand_chunks(rng, dims[l], use_zeros)
+            elif t > 0 and rng.random() < 0.12:
+                chunks[a] = list(lab_chunks[l])  # as many blocks, other boundaries (operands still to be aligned)
+                rng.shuffle(chunks[a])
         case["ops"].append({"ind": ind, "chunks": chunks, "coef": rng.choice([1, 2, 3, -1]), "seed": rng.randrange(1000)})
     if rng.random() < 0.2:
         case["ops"].insert(rng.randint(1, len(case["ops"])), {"ind": None, "lit": rng.choice([2, 3, -1])})
@@ -1030,11 +1038,20 @@ KNOWN_PROBES = [
     {"crs": True, "kind": "map_blocks", "out": ["i"], "align": False, "block_info": False,
      "ops": [{"ind": ["i"], "chunks": [[0, 1]], "coef": 1, "seed": 3}],
      "adjust": {"i": {"tf": "sum", "as": "tuple"}}, "index": [1]},
+    # regression probe of the repaired unaligned-operands defect (commit c36af38; found by the thorough tier, seed 1):
+    # operands with equal block counts and other boundaries on a sliced label ((2,2,3) vs (3,3,1), align_arrays=True)
+    {"crs": True, "kind": "blockwise", "out": ["j", "n", "i"], "align": True,
+     "adjust": {"j": {"tf": "resize", "as": "callable", "k": 2}, "i": {"tf": "repeat", "as": "callable"}},
+     "ops": [{"ind": ["j", "i"], "chunks": [[1], [2, 2, 3]], "coef": -1, "seed": 790},
+             {"ind": [], "chunks": [], "coef": 1, "seed": 858},
+             {"ind": ["i", "j"], "chunks": [[3, 3, 1], [1]], "coef": 3, "seed": 486}],
+     "new_axes": {"n": 1}, "index": [[0, None, 1], [None, 1, None], [3, 5, 1]]},
 ]
 
 
 def probe_known(ctx):
-    """regression probes: the minimal inputs of the repaired zero-width-operand-chunk defect must pass"""
+    """regression probes: the minimal inputs of the repaired zero-width-operand-chunk (978baf4) and unaligned-operands
+    (c36af38) defects must pass"""
     for case in KNOWN_PROBES:
         try:
             z, want = build(case)
